@@ -420,15 +420,34 @@ func LostAfterNonNil(fl *Flow, p *Path, use ResultUse) string {
 // OwnOnly strips the events of inlined callees from the paths (and merges the paths that then
 // coincide): the view of a function's own statements, for rules that judge each function on the
 // code written in it (who-may-do-what tables, per-site error discipline).
-func OwnOnly(paths []Path) []Path {
+func OwnOnly(paths []Path) []Path { return ownOnly(paths, nil, "") }
+
+// OwnOnly (on a flow) additionally keeps the events of the function's private helpers — the pieces a
+// function was split into belong to it (CallGraph.Owner).
+func (f *Flow) OwnOnly(paths []Path) []Path {
+	root := ""
+	if f.self != nil {
+		root = f.self.Key
+	}
+	return ownOnly(paths, f.P.CallGraph(), root)
+}
+
+func ownOnly(paths []Path, g *CallGraph, root string) []Path {
 	var out []Path
 	seen := map[string]bool{}
 	for _, p := range paths {
 		np := Path{Exit: p.Exit}
 		var sig strings.Builder
 		for _, e := range p.Ev {
-			if e.Depth > 0 {
+			if e.Depth > 0 && (g == nil || root == "" || e.From == "" || !g.PrivateTo(e.From, root)) {
 				continue
+			}
+			if e.Depth > 0 {
+				// part of the function: present it as its own code
+				if e.Kind == EvInlReturn || e.Kind == EvInlEnd {
+					continue
+				}
+				e.Depth = 0
 			}
 			e.Inlined = false
 			np.Ev = append(np.Ev, e)
